@@ -261,7 +261,9 @@ def gen_definition(rng, vkind, cond_kinds=None, act_kinds=None, ncond=None, nact
 NAME_POOL = ["a", "b", "c"]
 NAMES_RICH = ["rule1", "Rule é", "filter #2", "x: y", "名前", "a-b_c.d", "UPPER lower",
               "n(1)", "50%", "tab\tname"[:3]]
-DESCS = [None, "", "a description", "déscription ünï", "with # hash", "k: v; w"]
+DESCS = [None, "", "a description", "déscription ünï", "with # hash", "k: v; w",
+         "#starts with a hash", "ends with a hash #", "##", "\"quoted\" and 'single'",
+         "if true { stop; }", "Filter: not a marker", "x" * 200]
 
 
 def _map(x, f):
